@@ -89,6 +89,19 @@ func c05QuietStats(t *testing.T) {
 	c05Pool()
 }
 
+// c05Baseline is the goroutine count before a case. The minimum of a few samples, because the
+// runtime's finalizer goroutine is counted while (and only while) it runs a finalizer.
+func c05Baseline() int {
+	base := runtime.NumGoroutine()
+	for i := 0; i < 3; i++ {
+		runtime.Gosched()
+		if n := runtime.NumGoroutine(); n < base {
+			base = n
+		}
+	}
+	return base
+}
+
 // c05WaitGoroutines polls until the goroutine count is back at the baseline.
 func c05WaitGoroutines(base int, limit time.Duration) bool {
 	t0 := time.Now()
@@ -107,24 +120,33 @@ func c05WaitGoroutines(base int, limit time.Duration) bool {
 	}
 }
 
-// c05RelayGoroutines returns the stacks of goroutines that are inside the relay code.
-func c05RelayGoroutines() []string {
+// c05RelayGoroutines returns the (abridged) stacks of goroutines that are inside the relay code, and
+// whether one of them is inside halfPipe / is Proxy blocked in WaitGroup.Wait.
+func c05RelayGoroutines() (stacks []string, inPipe, proxyWaits bool) {
 	buf := make([]byte, 1<<20)
 	buf = buf[:runtime.Stack(buf, true)]
-	var out []string
 	for _, g := range strings.Split(string(buf), "\n\n") {
-		if strings.Contains(g, "station/lib.halfPipe") || strings.Contains(g, "station/lib.Proxy(") {
-			if strings.Contains(g, "c05RelayGoroutines") {
-				continue
-			}
-			lines := strings.Split(g, "\n")
-			if len(lines) > 12 {
-				lines = lines[:12]
-			}
-			out = append(out, strings.Join(lines, " | "))
+		if strings.Contains(g, "c05RelayGoroutines") {
+			continue
 		}
+		pipe := strings.Contains(g, "station/lib.halfPipe")
+		prox := strings.Contains(g, "station/lib.Proxy(")
+		if !pipe && !prox {
+			continue
+		}
+		if pipe {
+			inPipe = true
+		}
+		if prox && !pipe && strings.Contains(g, "WaitGroup).Wait") {
+			proxyWaits = true
+		}
+		lines := strings.Split(g, "\n")
+		if len(lines) > 24 {
+			lines = lines[:24]
+		}
+		stacks = append(stacks, strings.Join(lines, " | "))
 	}
-	return out
+	return
 }
 
 func c05Has(evs []c05Ev, f func(c05Ev) bool) bool {
@@ -378,7 +400,7 @@ func c05RunPipes(c c05Case) (out c05Out) {
 			return c05Out{key: "harness", msg: "bad schedule string"}
 		}
 	}
-	base := runtime.NumGoroutine()
+	base := c05Baseline()
 	pre := c05Snap()
 	w := c05NewWorld(c.Sched)
 	defer w.stop()
@@ -399,14 +421,31 @@ func c05RunPipes(c c05Case) (out c05Out) {
 	go run(c05Down, c05View{covert, c05Down}, c05View{client, c05Down}, "Down C0DE000000000001")
 
 	returned := w.waitDone()
+	// the source side is closed asynchronously (`go closeConn(src)`): poll up to 5 s for those calls
+	var evs []c05Ev
+	for t0, i := time.Now(), 0; ; i++ {
+		evs = w.events()
+		w.mu.Lock()
+		done := w.done
+		w.mu.Unlock()
+		if k, _, _ := c05JudgeStreams(evs, done); !strings.HasPrefix(k, "teardown:") || !returned || time.Since(t0) > 5*time.Second {
+			break
+		}
+		if i < 100 {
+			runtime.Gosched()
+		} else {
+			time.Sleep(200 * time.Microsecond)
+		}
+	}
 	leakFree := c05WaitGoroutines(base, 10*time.Second)
-	evs := w.events()
+	evs = w.events()
 	out.classes, out.nontriv = c05Classes(c, evs)
 	w.mu.Lock()
 	stuck, noDL, done, pans := w.stuck, w.noDL, w.done, w.pan
 	w.mu.Unlock()
 	if stuck || !returned {
-		return c05Out{key: "harness", msg: fmt.Sprintf("a wait of the scripted connections hit the %v limit (returned=%v); relay goroutines: %v", c05WaitLimit, returned, c05RelayGoroutines()), classes: out.classes}
+		gs, _, _ := c05RelayGoroutines()
+		return c05Out{key: "harness", msg: fmt.Sprintf("a wait of the scripted connections hit the %v limit (returned=%v); relay goroutines: %v", c05WaitLimit, returned, gs), classes: out.classes}
 	}
 	for d := 0; d < 2; d++ {
 		if pans[d] != nil {
@@ -432,7 +471,7 @@ func c05RunPipes(c c05Case) (out c05Out) {
 		return
 	}
 	if !leakFree {
-		gs := c05RelayGoroutines()
+		gs, _, _ := c05RelayGoroutines()
 		if len(gs) == 0 {
 			return c05Out{key: "harness", msg: fmt.Sprintf("goroutine count %d did not return to the baseline %d, but no goroutine is inside the relay code", runtime.NumGoroutine(), base), classes: out.classes}
 		}
@@ -655,7 +694,7 @@ func TestVerif_C05_single(t *testing.T) {
 
 // Pairs of faults: sampled in the quick tier, exhaustive in the thorough tier.
 func TestVerif_C05_pairs(t *testing.T) {
-	rec := vh.NewRec("C05", "pairs", "pairs of the single faults of sub-check 'single' injected into the same base script (both on one connection, on both connections, same or different directions); thorough tier: every unordered pair x the 6 schedules of 'single' (exhaustive), quick tier: rapid-sampled pairs x drawn schedule; base end: both peers silent; non-trivial and distinct as in 'single'")
+	rec := vh.NewRec("C05", "pairs", "pairs of the single faults of sub-check 'single' injected into the same base script (both on one connection, on both connections, same or different directions); thorough tier: every unordered pair x the 6 schedules x the 2 base ends of 'single' (exhaustive), quick tier: rapid-sampled pairs x drawn schedule and base end; non-trivial and distinct as in 'single'")
 	defer rec.Flush()
 	rec.Require("read:data+eof", "write:short", "write:err+partial", "setdl:nth", "close:err", "stopped-by-close:at-write")
 	c05QuietStats(t)
@@ -673,12 +712,14 @@ func TestVerif_C05_pairs(t *testing.T) {
 	if vh.Thorough() {
 		rec.SetExhaustive(true)
 		idx := 0
-		for _, sc := range c05Scheds {
-			for i := 0; i < len(fs); i++ {
-				for j := i + 1; j < len(fs); j++ {
-					idx++
-					if vh.Mine(idx) {
-						c05Check(t, rec, mk(i, j, sc, "hold"))
+		for _, end := range []string{"hold", "eof"} {
+			for _, sc := range c05Scheds {
+				for i := 0; i < len(fs); i++ {
+					for j := i + 1; j < len(fs); j++ {
+						idx++
+						if vh.Mine(idx) {
+							c05Check(t, rec, mk(i, j, sc, end))
+						}
 					}
 				}
 			}
